@@ -126,7 +126,7 @@ func c09RefList(st c09State, prefix, after string, limit int) []string {
 type c09Write struct {
 	Del bool   `json:"del,omitempty"`
 	Key string `json:"key"`
-	Val string `json:"val,omitempty"`
+	Val string `json:"val"`
 }
 
 type c09Read struct {
@@ -187,11 +187,12 @@ type c09Log struct {
 	Mods    map[uint64]map[string]struct{}
 	EndChunkKeys map[string]struct{} // raftchunking/ keys a never-restarted replica holds at the end
 	Chunked bool
+	Conflated int // read verifications that hold only because absent and zero-length hash alike
 }
 
 func c09ShortVal(v string) string {
 	if len(v) <= 12 {
-		return v
+		return fmt.Sprintf("%q", v)
 	}
 	h := sha256.Sum256([]byte(v))
 	return fmt.Sprintf("<%dB:%s>", len(v), hex.EncodeToString(h[:4]))
@@ -299,8 +300,15 @@ func (l *c09Log) c09Verify(cur c09State, c *c09Cmd, vis []uint64, at uint64) []c
 		return m
 	}
 	for _, r := range c.Reads {
+		// Wire semantics of a read verification entry: a hash over key and value
+		// bytes. An absent key and a key holding a zero-length value hash alike, so
+		// the entry cannot tell them apart; the model keeps them apart (the bucket
+		// comparison does distinguish them) and counts where verification conflates them.
 		v, ok := cur[r.Key]
-		holds := ok == r.Present && v == r.Val
+		holds := v == r.Val
+		if r.Hash == nil && holds && ok != r.Present {
+			l.Conflated++
+		}
 		if r.Hash != nil {
 			var val []byte
 			if ok {
@@ -342,10 +350,13 @@ type c09GenOpts struct {
 }
 
 var (
-	c09Keys     = []string{"a/k1", "a/k2", "a/k3", "a/d", "a/d/x", "a/d/y", "b/k1", "b/e/z", "c"}
+	// several keys are byte-prefixes of the key that sorts right after them (a/d < a/d/x, a/k1 < a/k10, b < b/e/z)
+	c09Keys     = []string{"a/k1", "a/k10", "a/k2", "a/k3", "a/d", "a/d/x", "a/d/y", "b", "b/k1", "b/e/z", "c"}
 	c09Prefixes = []string{"a/", "a/", "a/d/", "b/", "b/e/", "z/"}
 	c09Afters   = []string{"k1", "k2", "d", "d/", "e/", "a/", "b/", "k0"}
-	c09Vals     = []string{"v0", "v1", "v2"}
+	// zero-length and single 0x00 values are legal and are exactly what a codec
+	// with default-valued-field trouble (proto3 omits them on the wire) gets wrong
+	c09Vals     = []string{"v0", "v1", "v2", "", "\x00", ""}
 )
 
 type c09Pending struct {
@@ -1304,6 +1315,36 @@ func c09CountWindows(r *kit.Result, l *c09Log, run *c09Run) {
 			}
 		}
 		r.Count("resets_"+rs.Kind, 1)
+		if rs.Kind == "install" {
+			// what a stream codec has to carry: default-valued fields next to non-default neighbours
+			st := l.Hist[rs.P]
+			ks := make([]string, 0, len(st))
+			for k := range st {
+				ks = append(ks, k)
+			}
+			sort.Strings(ks)
+			empty, nul, pref := false, false, false
+			for i, k := range ks {
+				if i > 0 && st[k] == "" && st[ks[i-1]] != "" {
+					empty = true
+				}
+				if st[k] == "\x00" {
+					nul = true
+				}
+				if i > 0 && strings.HasPrefix(k, ks[i-1]) {
+					pref = true
+				}
+			}
+			if empty {
+				r.Count("installs_with_zero_length_value_after_nonempty_neighbour", 1)
+			}
+			if nul {
+				r.Count("installs_with_single_nul_value", 1)
+			}
+			if pref {
+				r.Count("installs_with_key_prefix_of_next_key", 1)
+			}
+		}
 		if inside {
 			r.Count("resets_inside_txn_window", 1)
 		}
@@ -1370,6 +1411,19 @@ func c09LogStats(r *kit.Result, l *c09Log) (nontrivial bool) {
 	r.Count("chunked_ops_interleaved_with_other_entries", inter)
 	r.Count("entries_shipping_positive_lowest_active_index", tight)
 	r.Count("raft_entries", len(l.Entries))
+	r.Count("read_verifications_conflating_absent_and_empty", l.Conflated)
+	for _, c := range l.Cmds {
+		for _, w := range c.Writes {
+			if !w.Del && c.Final > 0 && c.Commit {
+				switch w.Val {
+				case "":
+					r.Count("applied_puts_zero_length_value", 1)
+				case "\x00":
+					r.Count("applied_puts_single_nul_value", 1)
+				}
+			}
+		}
+	}
 	if conflict > 0 {
 		r.Count("logs_with_conflicting_txn", 1)
 	}
@@ -1646,7 +1700,7 @@ func TestVerif_C09_Small(t *testing.T) {
 			h := c09Mix(uint64(i) + 1<<32)
 			o := c09GenOpts{MinCmds: 4, MaxCmds: 8, MaxEntries: 15, Chunking: h%3 == 1, TermBumps: (h>>8)%4 == 3, TxnPct: 60}
 			if (h>>16)%2 == 0 {
-				o.Keys = []string{"a/k1", "a/d/x", "b/k1"} // few keys: most transactions overlap with other writers
+				o.Keys = []string{"a/k1", "a/k10", "a/d/x", "b/k1"} // few keys: most transactions overlap with other writers
 			}
 			l = c09Generate(rng, o)
 			if len(l.Entries) <= kit.N(8, 9) && len(l.Entries) >= 3 {
